@@ -43,7 +43,8 @@ FLOORS = {'*': {
     'accepted:PO': 50, 'accepted:PK': 500, 'accepted:KO': 100, 'accepted:VA': 50, 'accepted:VK': 50,
     'refused:PO': 50, 'refused:PK': 500, 'refused:KO': 100, 'refused:VA': 20, 'refused:VK': 20,
     'mode:none': 100, 'mode:name': 100, 'mode:positional': 50, 'mode:view': 100, 'mode:view-classmethod': 100,
-    'mode:view-staticmethod': 100, 'annotations-for-the-type-checker-only': 300,
+    'mode:view-staticmethod': 100, 'annotations-for-the-type-checker-only': 300, 'parameter-names-the-library-uses-itself': 300,
+    'style:async-wrapped': 100,
     'style:def': 300, 'style:async': 300, 'style:async-plain': 300, 'client-names-context': 100,
     'context-identity-checked': 500, 'dual-registration-calls': 500,
 }}
@@ -80,7 +81,14 @@ def signatures(max_params):
     return out
 
 
-def name_params(sig, ctx_at):
+NAME_SETS = [
+    ('c', 'tx', 'x', 'ct', 'ctx_'),                           # collide textually with the context name 'ctx'
+    ('method', 'context', 'params', 'request', 'name'),       # names the library uses for its own parameters
+    ('self', 'cls', 'func', 'validator', 'handler'),          # (plain functions only) likewise
+]
+
+
+def name_params(sig, ctx_at, names=0):
     """[(name, kind, has_default, is_ctx)] ; ctx_at indexes into sig (the context is one of its parameters)"""
     out, k = [], 0
     for i, (kind, dflt) in enumerate(sig):
@@ -92,7 +100,7 @@ def name_params(sig, ctx_at):
             out.append(('kw', kind, False, False))
         else:
             # names chosen to collide textually with the context name 'ctx' (sub- and super-strings)
-            out.append((('c', 'tx', 'x', 'ct', 'ctx_')[k], kind, dflt, False))
+            out.append((NAME_SETS[names][k], kind, dflt, False))
             k += 1
     return out
 
@@ -151,10 +159,10 @@ def _render(params, with_ctx, is_async, as_method, fname, first='self'):
     return head + '\n' + body
 
 
-def build_program(sig, ctx_at, mode, style, annot=False):
+def build_program(sig, ctx_at, mode, style, annot=False, names=0):
     """returns (namespace with f / g / LOG / View, source)"""
-    params = name_params(sig, ctx_at if mode in ('name', 'positional') else -1)
-    is_async = style == 'async'
+    params = name_params(sig, ctx_at if mode in ('name', 'positional') else -1, names)
+    is_async = style in ('async', 'async-wrapped')
     src_g = render(params, False, False, False, 'g')
     if mode == 'name':
         # the same function object is also registered without a context designation: there `ctx` is an ordinary parameter
@@ -168,7 +176,13 @@ def build_program(sig, ctx_at, mode, style, annot=False):
                  '        VIEWS.append((self, context))\n' + '\n'.join('    ' + l for l in meth.splitlines()))
     else:
         src_f = render(params, True, is_async, False, 'f', annot=annot)
-    ns = {'LOG': [], 'VIEWS': [], 'ViewMixin': pjrpc.server.ViewMixin, '__name__': MODULE_NAME}
+        if style == 'async-wrapped':
+            # an `async def` behind an ordinary decorator: a plain callable (same signature via __wrapped__) that hands
+            # out the coroutine
+            src_f += ('\n\n_f_inner = f\n\ndef f(*a, **k):\n    return _f_inner(*a, **k)\n\n'
+                      'f = functools.wraps(_f_inner)(f)')
+    import functools
+    ns = {'LOG': [], 'VIEWS': [], 'ViewMixin': pjrpc.server.ViewMixin, '__name__': MODULE_NAME, 'functools': functools}
     src = src_g + '\n\n' + src_f + '\n'
     exec(compile(src, f'<{MODULE_NAME}>', 'exec', dont_inherit=True), ns)
     return ns, src, params
@@ -180,6 +194,8 @@ def param_cases(params):
         yield [10 + i for i in range(n)]
     names = [p[0] for p in params if not p[3]] + ['ctxx', 'ctx']
     names = list(dict.fromkeys(names))
+    # by-name arguments wrapped as the only element of an array: an array is positional whatever it holds
+    yield [{n: f'v_{n}' for n in names[:-2]}]
     for r in range(len(names) + 1):
         for sub in itertools.combinations(names, r):
             if not sub:
@@ -187,14 +203,16 @@ def param_cases(params):
             yield {n: f'v_{n}' for n in sub}
 
 
-def run_program(ctx, sig, ctx_at, mode, style, annot=False):
+def run_program(ctx, sig, ctx_at, mode, style, annot=False, names=0):
     if annot:
         ctx.hit('annotations-for-the-type-checker-only')
+    if names:
+        ctx.hit('parameter-names-the-library-uses-itself')
     try:
-        ns, src, params = build_program(sig, ctx_at, mode, style, annot)
+        ns, src, params = build_program(sig, ctx_at, mode, style, annot, names)
     except SyntaxError as e:
         raise RuntimeError(f'generator produced invalid Python: {e}\n{sig} {ctx_at} {mode} {style}')
-    is_async = style in ('async', 'async-plain')
+    is_async = style in ('async', 'async-plain', 'async-wrapped')
     disp = (pjrpc.server.AsyncDispatcher if is_async else pjrpc.server.Dispatcher)()
     try:
         if mode.startswith('view'):
@@ -375,7 +393,12 @@ def gen(ctx):
                 continue        # a context parameter with a default adds nothing
             for style in ('def', 'async', 'async-plain'):
                 k += 1
-                yield 'program', {'sig': sig, 'ctx_at': at, 'mode': mode, 'style': style, 'annot': k % 5 == 0}
+                if style == 'async' and not mode.startswith('view') and (k // 3) % 2 == 0:
+                    style = 'async-wrapped'
+                names = (0, 1, 0, 2, 0, 0, 1)[k % 7]
+                if names == 2 and mode.startswith('view'):
+                    names = 1
+                yield 'program', {'sig': sig, 'ctx_at': at, 'mode': mode, 'style': style, 'annot': k % 5 == 0, 'names': names}
 
 
 KINDS = {'program': run_program}
